@@ -112,7 +112,8 @@ impl State {
         let mut rules = Vec::new();
         let mut seen = std::collections::HashSet::new();
         while rules.len() < n_rules {
-            let k = if n_rules > 300 { format!("r{}_{}", rules.len(), rng.ident(6)) } else { rng.text1(20, NO_NUL) };
+            // a rule name may be any NUL-terminated string, the empty one included
+            let k = if n_rules > 300 { format!("r{}_{}", rules.len(), rng.ident(6)) } else if rng.chance(1, 12) { String::new() } else { rng.text1(20, NO_NUL) };
             if k == "Test" || !seen.insert(k.clone()) {
                 continue;
             }
